@@ -509,6 +509,11 @@ func (c *control) dirMove(colon, at bool, params []any) {
 	default:
 		c.argPos += n
 	}
+	// One past the last argument is a position, ~* at the end of the
+	// arguments is legal, anything else outside of them is not.
+	if c.argPos < 0 || len(c.args) < c.argPos {
+		slip.ErrorPanic(c.scope, 0, "the ~* directive at %d of %q moves to argument %d of %d", c.pos, c.str, c.argPos, len(c.args))
+	}
 }
 
 func (c *control) dirCall(colon, at bool, params []any) {
